@@ -204,6 +204,11 @@ class StdioClient:
                     f"Processing batch with {len(data)} messages (protocol: {self.batch_processor.protocol_version})"
                 )
                 for item in data:
+                    # A batch member must be a message object; anything else
+                    # (e.g. a nested array) is invalid and is dropped alone
+                    if not isinstance(item, dict):
+                        logger.error("Invalid batch item (not an object): %.120s", item)
+                        continue
                     try:
                         # Import parse_message to handle unions properly
                         from chuk_mcp.protocol.messages.json_rpc_message import (
